@@ -28,7 +28,8 @@ ASSUMPTIONS = [
     "structures and histories are sampled (seeded); only the fault catalogue is enumerated completely",
 ]
 
-OPS = ["dot_bracket", "elements", "without_pseudoknots", "without_isolated"]
+OPS = ["dot_bracket", "elements", "without_pseudoknots", "without_isolated", "mapping_dot_bracket", "mapping_extended"]
+CORPUS = ["1ehz-assembly-1.cif", "4qln.cif"]
 KINDS_OF = {"sim-api": API_KINDS, "cbc-wrapper": CBC_KINDS, "highs-wrapper": HIGHS_KINDS,
             "real-cbc": REAL_KINDS, "none": ["ok"]}
 
@@ -106,20 +107,30 @@ def gen_run(seed, tier, i):
         fault = {"kind": kind, "tie": s_fault.randrange(64), "partial": s_fault.randrange(1 << 16)}
         if kind.startswith("status_"):
             fault["assign"] = s_fault.choice(API_ASSIGN)
-        steps.append({"triples": st["triples"], "op": op, "via": via, "backend": backend,
-                      "fault": fault, "default": s_cfg.choice(["none", "sim-api"])})
+        step = {"triples": st["triples"], "op": op, "via": via, "backend": backend,
+                "fault": fault, "default": s_cfg.choice(["none", "sim-api"])}
+        if op.startswith("mapping_"):
+            step["corpus"] = s_ops.choice(CORPUS)
+            step["triples"] = []
+        steps.append(step)
     # clause (e): after the last fault a fresh object with a healthy solver
     st = structures.gen_structure(s_struct, max_stems=6, knotted_bias=1.0)
     steps.append({"triples": st["triples"], "op": "dot_bracket", "via": "property",
                   "backend": s_cfg.choice(["sim-api", "cbc-wrapper"]), "fault": {"kind": "ok", "tie": 0},
                   "default": "none"})
+    if i % 8 == 0:
+        # probe (never judged): a solver that returns normally with an integrality-tolerance value such as
+        # 0.9999999 for a binary variable - outside the property's fault alphabet, counted in the evidence
+        st = structures.gen_structure(s_struct, max_stems=5, knotted_bias=1.0)
+        steps.append({"triples": st["triples"], "op": "dot_bracket", "via": "argument", "backend": "sim-api",
+                      "fault": {"kind": "ok_tolerance", "tie": s_fault.randrange(64)}, "probe": True})
     return {"property": NAME, "kind": "history", "steps": steps}
 
 
 def coverage_keys(run, observations):
     keys = []
     for step, obs in zip(run["steps"], observations):
-        n, pairs = oracles.pairs_of_triples(step["triples"])
+        n, pairs = oracles.pairs_of_triples(obs.get("triples") or step["triples"])
         if not oracles.is_knotted(pairs):
             continue
         f = step["fault"]
@@ -134,9 +145,17 @@ def execute_run(run, tmpdir):
     for v in violations:
         v["signature"] = signature(v, run)
     nsolves = sum(len(o.get("solves", [])) for o in observations)
+    probes = {"tolerance_probe_steps": 0, "tolerance_probe_lossy_or_raised": 0}
+    for step, obs in zip(run["steps"], observations):
+        if step.get("probe") and not obs.get("discard"):
+            probes["tolerance_probe_steps"] += 1
+            tmp = []
+            solve_engine.judge_common(0, step, obs, tmp)
+            if tmp:
+                probes["tolerance_probe_lossy_or_raised"] += 1
     return {"violations": violations, "digest": digest, "counters": counters,
             "coverage": coverage_keys(run, observations), "steps": len(run["steps"]),
-            "solves": nsolves, "discards": sum(1 for o in observations if o.get("discard")),
+            "solves": nsolves, "discards": sum(1 for o in observations if o.get("discard")), "probes": probes,
             "observations": observations}
 
 
@@ -170,7 +189,7 @@ def shrink_candidates(run, v):
         yield dict(run, steps=cand)
     # simplify the violating step
     step = steps[focus]
-    if step.get("op") != "dot_bracket":
+    if step.get("op") != "dot_bracket" and step.get("triples"):
         yield _with_step(run, focus, dict(step, op="dot_bracket"))
     if step.get("backend") not in ("sim-api", "none"):
         kind = step["fault"].get("kind")
@@ -185,7 +204,7 @@ def shrink_candidates(run, v):
         yield _with_step(run, focus, dict(step, via="argument"))
     if step.get("fault", {}).get("tie"):
         yield _with_step(run, focus, dict(step, fault=dict(step["fault"], tie=0)))
-    for t in shrink.structure_candidates(step["triples"]):
+    for t in shrink.structure_candidates(step["triples"]) if step.get("triples") else []:
         if t:
             yield _with_step(run, focus, dict(step, triples=t))
 
@@ -202,7 +221,10 @@ def coverage_doc(results, tier):
     steps = solves = discards = 0
     kinds = {"catalogue": 0, "history": 0}
     samples = []
+    probes = {}
     for r in results:
+        for pk, pv in r.get("probes", {}).items():
+            probes[pk] = probes.get(pk, 0) + pv
         cov.update(r["coverage"])
         steps += r["steps"]
         solves += r["solves"]
@@ -230,6 +252,9 @@ def coverage_doc(results, tier):
         "runs_by_kind": kinds,
         "solver_invocations": solves,
         "discarded_steps": discards,
+        "probes": dict(probes, note="probe steps are outside the property's fault alphabet and never affect the exit code: "
+                                    "a solver returning 0.9999999 for a binary variable is mis-read by the exact "
+                                    "varValue == 1 read-back"),
         "fault_kinds_fired": dict(sorted(counters.items())),
         "simulated_time": "none: no anchored code path reads a clock; 'time' is the step count",
         "real_vs_stub": {
@@ -244,7 +269,7 @@ def coverage_doc(results, tier):
 
 
 def _brief(step):
-    return {"structure": structures.structure_string(step["triples"]), "op": step["op"], "via": step["via"],
+    return {"structure": structures.structure_string(step["triples"]) if step.get("triples") else step.get("corpus"), "op": step["op"], "via": step["via"],
             "backend": step["backend"], "fault": step["fault"]}
 
 
